@@ -1,7 +1,9 @@
 (* C08 — Runtime lookahead decisions pick the alternative whose predicates hold.
-   Model: Gram/Lookahead.v (newLookaheadRule, pickLookahead, generated if-chain). *)
+   Model: Gram/Lookahead.v (newLookaheadRule, pickLookahead, generated if-chain);
+   Gram/LookaheadRun.v (per-terminal grouping of the alternatives of a state, predicate outcomes on a concrete
+   remaining input, the selection made at run time). *)
 From Coq Require Import List ZArith Bool.
-From TM Require Import Gram.Lookahead Gram.Lookahead_proofs.
+From TM Require Import Gram.Lookahead Gram.Lookahead_proofs Gram.LookaheadRun Gram.LookaheadRun_proofs.
 Import ListNotations.
 Local Open Scope Z_scope.
 
@@ -42,6 +44,52 @@ Example C08_examples :
   holds (fun i => i =? 2) (mkLA 7 [(1, true); (2, false)]) = true.
 Proof. vm_compute. repeat split; reflexivity. Qed.
 
+(* ---- run time (kind c08.gen) ----
+   `group alts t` is the set of alternatives of one parser state that can be reduced on terminal t (the set
+   that ruleAction/addRule hand to newLookaheadRule); `select` is what the generated parser does there: syntax
+   error for the empty set, a plain reduce for a singleton, otherwise the if-chain of the rule built for the
+   set.  For EVERY state (list of alternatives), terminal and predicate outcomes: when the selection is
+   defined, every applicable alternative whose conjunction holds is the one selected. *)
+Theorem C08_runtime_selection :
+  forall alts rho t nt a,
+  select alts rho t = SelOne nt -> In a (group alts t) -> holds rho (a_la a) = true ->
+  nt = la_nonterm (a_la a).
+Proof. exact select_correct. Qed.
+
+(* the same on a concrete remaining input t :: rest, the outcomes being those of decidable predicate
+   nonterminals (prefix matching, nested guards) evaluated on that input: this is the statement whose
+   instances the c08.gen correspondence observes on generated parsers *)
+Theorem C08_runtime_selection_on_input :
+  forall ntok defs alts t rest nt a,
+  select_on ntok defs alts (t :: rest) = SelOne nt ->
+  In a alts -> In t (a_first a) -> holds (rho_at ntok defs (t :: rest)) (a_la a) = true ->
+  nt = la_nonterm (a_la a).
+Proof. exact select_on_correct. Qed.
+
+Theorem C08_runtime_satisfied_alternative_unique :
+  forall alts rho t nt a b,
+  select alts rho t = SelOne nt -> In a (group alts t) -> In b (group alts t) ->
+  holds rho (a_la a) = true -> holds rho (a_la b) = true ->
+  la_nonterm (a_la a) = la_nonterm (a_la b).
+Proof. exact select_unique. Qed.
+
+(* non-vacuity: (?= P & Q) -> 7, (?= P & !Q) -> 8, (?= !P) -> 9 with P = 'a'|'b' (input 1), Q = 'b'|'c'
+   (input 2, behind a nested guard on P: (?= P) 'b' | (?= !P) 'c'), alternative 9 restricted to bodies starting
+   with 'c' or 'd': on "b.." 7 is selected, on "a.." 8, on "c.." 9, on "d.." the singleton 9. *)
+Example C08_runtime_examples :
+  let defs := [mkP 1 [([], [[0]; [1]])]; mkP 2 [([(1, false)], [[1]]); ([(1, true)], [[2]])]] in
+  let alts := [mkAlt (mkLA 7 [(1, false); (2, false)]) [0; 1; 2; 3]; mkAlt (mkLA 8 [(1, false); (2, true)]) [0; 1; 2; 3];
+               mkAlt (mkLA 9 [(1, true)]) [2; 3]] in
+  select_on 4 defs alts [1; 0; 100] = SelOne 7 /\ select_on 4 defs alts [0; 0; 100] = SelOne 8 /\
+  select_on 4 defs alts [2; 0; 100] = SelOne 9 /\ select_on 4 defs alts [3; 3; 100] = SelOne 9 /\
+  select_on 4 defs alts [100] = SelNone /\
+  holds (rho_at 4 defs [1; 0; 100]) (mkLA 7 [(1, false); (2, false)]) = true /\
+  map (fun a => la_nonterm (a_la a)) (group alts 0) = [7; 8].
+Proof. vm_compute. repeat split; reflexivity. Qed.
+
 Print Assumptions C08_decision_correct.
 Print Assumptions C08_accepted_sets_are_exclusive.
 Print Assumptions C08_pick_polarity.
+Print Assumptions C08_runtime_selection.
+Print Assumptions C08_runtime_selection_on_input.
+Print Assumptions C08_runtime_satisfied_alternative_unique.
